@@ -199,7 +199,7 @@ CHECKS = {
          "checker proved sound and run on the regenerated table: no left recursion, no nullable loop), so every theorem "
          "holds for parse_pil as run; no_skipped_text (every character of an accepted text is a terminal, a line end, a "
          "comment or skipped blanks); token-language soundness; reaction rate box and kernel concentration round trips; "
-         "missing-name rejection REFUTED (`length = 5`, known finding). Not proved: tab layouts, an attached unclosed '('. "
+         "missing-name rejection REFUTED (`length = 5`, known finding). Also proved: the round trips for layouts with tabs (parse_pil's expandtabs step included) for every kind, with the guard that no blank or tab follows the dot-bracket of a strand-notation complex (the grammar absorbs it into the token; the property compares that token up to blanks), and rejection of an attached unclosed '(' at any nesting when the statement is the last one. Not proved: the rejection theorems for texts containing tabs. "
          "All of it, plus files and parser histories, is compared with pyparsing and evaluated on the implementation on "
          "every run.",
     design="DESIGN.md 7 (C13)", technique="Coq big-step rules derived from a fuelled PEG interpreter + regenerated grammar table + differential correspondence with pyparsing"),
@@ -238,8 +238,10 @@ CHECKS = {
          "their statements, fuel independence, file = content, round trips of reporter and INPUT statements and of wires for "
          "all numbers and layouts, of OUTPUT (wire and Fluor), seesaw, the three conc forms in both argument orders, inputfanout, "
          "seesawOR and seesawAND; rejection of an input bound to a fluorophore, of negative concentrations and of wrong "
-         "reporter arguments; the default fuel suffices for every text; no_skipped_text. Not proved: wrong number/kind of "
-         "arguments for kinds other than reporter. The whole negative family is compared with pyparsing and evaluated on the "
+         "reporter arguments; the default fuel suffices for every text; no_skipped_text; one argument-fault rejection per "
+         "statement kind (seesaw without its list, OUTPUT with an extra argument, non-numeric fan-out, conc without / with a negative "
+         "number in both argument orders, seesawOR/AND with too few arguments), for all numbers, names, list lengths and blank "
+         "layouts. Not proved: faults outside these families (deleted brackets, swapped kinds inside lists). The whole negative family is compared with pyparsing and evaluated on the "
          "implementation on every run.",
     design="DESIGN.md 7 (C19)", technique="Coq big-step rules from the fuelled PEG interpreter + regenerated grammar table + differential correspondence with pyparsing"),
 }
